@@ -109,13 +109,30 @@ def run(prog):
     _PROG[0] = prog
     ins = prog.find1(name="get_or_insert_by_hash", self_adt=T, unit="rsdd-lib")
     get = prog.find1(name="get_by_hash", self_adt=T, unit="rsdd-lib")
-    fi = loop_facts(ins, "arg2", "arg1.cap")
-    fg = loop_facts(get, "arg2", "arg1.cap")
+    def loop_owner(fn):
+        """fn itself, or the private helper of the table that walks the probe sequence for it (`self.probe(hash, accept)`)"""
+        if named_mu(fn, "pos")[0] or not fn.cfg.loop_headers and False:
+            return fn
+        for cs in fn.terms.calls:
+            if not (cs.callee.local or getattr(cs.callee, "res_local", False)) or cs.callee.name in ("grow", "propagate"):
+                continue
+            for h in prog.resolve(cs.callee):
+                if "{closure" not in h.npath and h.impl_self == T and h.cfg.loop_headers and named_mu(h, "pos")[0] and \
+                        len(cs.args) >= 2 and strip(cs.args[1]) == ("param", 2):
+                    return h
+        return fn
+    ins_l, get_l = loop_owner(ins), loop_owner(get)
+    fi = loop_facts(ins_l, "arg2", "arg1.cap")
+    fg = loop_facts(get_l, "arg2", "arg1.cap")
     want = {"home": "( ( HASH as usize ) Rem CAP )", "step": ["( ( POS Add 1 ) Rem CAP )"], "psl0": "0",
             "psl+": ["( PSL Add 1 )"]}
     for name, fn, f in (("insert", ins, fi), ("lookup", get, fg)):
         for k, w in want.items():
             ok = f[k] == w
+            if f[k] is None or f[k] == []:
+                out.append(inst("RH", "%s:%s" % (fn.npath, k), UNDECIDED, fn, None,
+                                "?the probe loop of the %s was not found in %s or in a helper it hands its hash to" % (name, fn.name)))
+                continue
             # `x & self.mask` for `x % self.cap`: the same slot exactly while mask = cap - 1 and cap is a power of two.  That the
             # field follows `cap` is DI's business (a field derived from a sibling is stored again wherever the sibling is);
             # whether cap is a power of two is not decided here
@@ -131,6 +148,9 @@ def run(prog):
                             "probe loop of the %s has %s = %s, expected %s (the other loops walk hash %% cap, +1 per step, "
                             "distance from 0)" % (name, k, f[k], w)))
         cmp_ok = len(f["cmp"]) == 1 and re.match(r"^\( .*psl Lt PSL \)$", f["cmp"][0])
+        if not f["cmp"]:
+            out.append(inst("RH", "%s:early-exit" % fn.npath, UNDECIDED, fn, None, "?no comparison of probe lengths found for the %s" % name))
+            continue
         out.append(inst("RH", "%s:early-exit" % fn.npath, OK if cmp_ok else VIOLATION, fn, None,
                         "stops when stored.psl < walked distance" if cmp_ok else
                         "early-exit test of the %s is %s; it must be the strict `stored.psl < walked distance` that "
